@@ -242,7 +242,7 @@ def gen_cases(tier: str, seed: int) -> List[Dict]:
         (("q0", "q1", "q2"), [[1, 0, 0], [0, 1, 0], [0, 0, 1], [1, 1, 1]]),
     ]
     shapes = [(), (), (2,), (2, 2)] if quick else [(), (1,), (2,), (3,), (2, 2), (1, 2), (2, 1, 2)]
-    reps = 1 if quick else 3
+    reps = 5 if quick else 60
     for _ in range(reps):
         for names, exps in monosets:
             for b in bools:
